@@ -302,7 +302,10 @@ def check_signer(w, model, default_id, op, r, deleted_keys):
             kn = deleted_keys[op['t'] % len(deleted_keys)]
             if any(kn in i['keys'] for i in model.values()):
                 return
-            for a in ({'key': Name.from_bytes(kn)}, {'cert': Name.from_bytes(kn) + nm(['self', 'v'])}):
+            fab = Name.from_bytes(kn) + nm(['self', 'v'])
+            for a in ({'key': Name.from_bytes(kn)}, {'cert': fab},
+                      {'cert': fab, 'key_locator': nm(['locator', '0'])}, {'cert': fab, 'key_locator': nm(['locator', '1'])},
+                      {'key': Name.from_bytes(kn), 'key_locator': nm(['locator', '0'])}):
                 try:
                     s = kc.get_signer(a)
                 except Exception:
@@ -731,6 +734,24 @@ def _op():
     )
 
 
+def _template():
+    """signer obtained (with an explicit key locator) -> key / identity deleted -> signer requested again -> key re-created"""
+    @st.composite
+    def t(draw):
+        tt = draw(st.integers(0, 3))
+        kl = draw(st.integers(0, 1))
+        form = draw(st.sampled_from(['key', 'cert', 'identity', 'key-obj']))
+        core = [{'op': 'get_signer', 't': tt, 'form': form, 'kl': kl},
+                draw(st.sampled_from([{'op': 'del_key', 't': tt, 'via_view': False}, {'op': 'del_key', 't': tt, 'via_view': True},
+                                      {'op': 'del_identity', 'i': tt}])),
+                {'op': 'get_signer', 't': 0, 'form': 'deleted-key', 'kl': None},
+                {'op': 'new_key', 'i': tt, 'type': 'ec', 'key_id': draw(st.integers(0, 1))},
+                {'op': 'get_signer', 't': tt, 'form': form, 'kl': kl}]
+        pre = [{'op': 'touch_identity', 'i': 0}, {'op': 'new_key', 'i': 0, 'type': 'ec', 'key_id': draw(st.integers(0, 1))}]
+        return pre + draw(st.lists(_op(), max_size=3)) + core + draw(st.lists(_op(), max_size=3))
+    return t()
+
+
 def _case(with_faults):
     ops = [_op()] * 6
     if with_faults:
@@ -739,7 +760,12 @@ def _case(with_faults):
     return st.fixed_dictionaries({'seed': st.integers(0, 1000),
                                   'ops': st.tuples(st.lists(st.sampled_from([{'op': 'touch_identity', 'i': 0}, {'op': 'touch_identity', 'i': 1},
                                                                              {'op': 'new_identity', 'i': 2}]), min_size=1, max_size=2),
-                                                   st.lists(st.one_of(*ops), min_size=2, max_size=22)).map(lambda t: t[0] + t[1])})
+                                                   st.lists(st.one_of(*ops), min_size=2, max_size=22)).map(lambda t: t[0] + t[1])
+                                  if with_faults else
+                                  st.one_of(st.tuples(st.lists(st.sampled_from([{'op': 'touch_identity', 'i': 0}, {'op': 'touch_identity', 'i': 1},
+                                                                                {'op': 'new_identity', 'i': 2}]), min_size=1, max_size=2),
+                                                      st.lists(st.one_of(*ops), min_size=2, max_size=22)).map(lambda t: t[0] + t[1]),
+                                            _template())})
 
 
 def _fault_enum(tier):
